@@ -817,6 +817,46 @@ def rule_m13(F):
     return r
 
 
+def rule_m14(F):
+    """Every element is cloned and dropped in balance: a list whose element type has a `Clone` impl clones its elements with it -
+    whether or not the type has drop glue.  (`needs_drop::<T>().then_some(extern_clone::<T>)` treats "no Drop" as "Copy": the
+    type-erased paths - concat, script get / for - then memcpy values whose Clone has effects, the typed paths still call it.)  The
+    clone function handed to the vtable of a Rust-side list does not depend on `needs_drop`."""
+    r = RuleResult("C15.M14", "the clone function of a Rust-side list's vtable is unconditional (not derived from needs_drop)", floor=1)
+    vb = F.body("value::vtable::VTable::new")
+    if vb is None or not vb.hir:
+        r.missing("value::vtable::VTable::new")
+        return r
+    pn = [p_.get("name") for p_ in vb.hir.get("params") or []]
+    cpos = [i for i, n_ in enumerate(pn) if n_ and "clone" in n_]
+    if not cpos:
+        r.missing("the clone function parameter of VTable::new")
+        return r
+    n = 0
+    for b in F.bodies_in(["src/value/list.rs"]):
+        if not b.mir or "::tests::" in b.path:
+            continue
+        defs = None
+        for bi, t in mir.calls(b):
+            if (mir.callee(t) or "") != "value::vtable::VTable::new" or len(t["args"]) <= cpos[0]:
+                continue
+            defs = defs or mir.Defs(b)
+            a = t["args"][cpos[0]]
+            n += 1
+            via = []
+            if mir.is_place_op(a):
+                via = [hir.last(mir.callee_def(b.blocks[x]["term"]) or "") for x in mir.back_calls(b, defs, a[1][0])]
+            cond = [x for x in via if x in ("needs_drop", "then_some", "then", "filter")]
+            r.inst("%s builds a vtable" % b.path, {"fn": b.path, "line": t.get("line"), "clone_fn_computed_through": via})
+            if cond:
+                r.bad(b.path, "clone function depends on needs_drop", relfile(b.file), t.get("line") or b.line,
+                      "the clone function given to the list's vtable is computed through %s: element types with a Clone impl but without drop glue are copied bytewise by concat / "
+                      "script get / for, while to_vec and get on the Rust side still call Clone - clones are no longer in balance and the results differ from a shared Vec" % cond)
+    if n == 0:
+        r.missing("a call of VTable::new in src/value/list.rs")
+    return r
+
+
 def rules(ctx):
     F = ctx["F"]
     bodies = _scope(F)
@@ -831,7 +871,7 @@ def rules(ctx):
                    "value::list::ErasedList::concat"):
         if not F.has(anchor):
             m1.missing(anchor)
-    return [m1, m2, rule_m4(F), rule_m5(F), rule_m6(F), m7, rule_m8(F), rule_m9(F), rule_m10(F), rule_m11(F), rule_m12(F), rule_m13(F)]
+    return [m1, m2, rule_m4(F), rule_m5(F), rule_m6(F), m7, rule_m8(F), rule_m9(F), rule_m10(F), rule_m11(F), rule_m12(F), rule_m13(F), rule_m14(F)]
 
 
 def canary(C):
